@@ -182,8 +182,9 @@ impl Scenario for C15Des {
     // finalize upstream of take: whether the downstream's completion alone runs the
     // finalizer is outside the statement's quantifier; only "at most once before,
     // exactly once after unsubscribe" is judged there
-    // a hot source under a short-circuiting take: the downstream ends the stream, the
-    // subject then filters the finished subscriber, so only unsubscribe is left
+    // a hot source under a short-circuiting take: whether the downstream's completion
+    // alone runs the finalizer is not judged either (0 or 1 runs before the first of
+    // complete / error / unsubscribe on the source side)
     let lenient_before_unsub = matches!(case.src, Src::IntervalTake(_)) || (case.tail >= 3 && case.src == Src::Hot);
     let mut violation: Option<Violation> = None;
     let mut trace = format!("subscribe ");
@@ -242,10 +243,10 @@ impl Scenario for C15Des {
             (_, false) => local.clone().error(1),
             (_, true) => shr.clone().error(1),
           }
-          // below a take(1) that has already ended the stream the subject filters
-          // this (finished) subscriber: the terminal does not reach finalize any more
-          // and only unsubscribe is left as a trigger
-          if matches!(case.src, Src::Hot) && !(case.tail >= 3 && n > 0) {
+          // also below a take(1) that has already ended the stream: since fix 79cbe48
+          // a subject hands its terminal to subscribers that report finished, so the
+          // finalize stage is completed / failed by it like any other subscriber
+          if matches!(case.src, Src::Hot) {
             triggered = true;
           }
           trace.push_str(if *t == Trig::Complete { "complete " } else { "error " });
